@@ -12,7 +12,7 @@ CLAIMED = {
                 ref='DESIGN.md section 6 C01'),
     'C02': dict(text='Symbolic execution with a step counter (crate calls + loop back edges + library iterator elements) as unwinding assertion, budget 4096 + 256*len: every looping construct (x!, ilog, w, gcd, lcm, integer ^, exp2, aggregates) on arbitrary operands and the public functions on looping templates, short arbitrary strings, nested brackets and long literals. Paths are enumerated syntactically (over-approximation), an over-budget path must be infeasible (z3, with a sound range axiom for log10) or it is confirmed by a native run under a 5 s watchdog.',
                 ref='DESIGN.md section 6 C02'),
-    'C16': dict(text='Every MIR body reachable from the five public functions (call graph from the MIR, closures included) and every library callee named there is scanned for places that outlive a call (statics, thread locals, interior-mutable or synchronisation types, effectful library calls); none exists, so the symbolic result of a call is a function of its two arguments. If one is found, call histories are replayed natively against fresh processes.',
+    'C16': dict(text='Every MIR body reachable from the five public functions (call graph from the MIR, closures included) and every library callee named there is scanned for places that outlive a call (statics, thread locals, interior-mutable or synchronisation types, effectful library calls); none exists, so the symbolic result of a call is a function of its two arguments. If one is found, call histories (ordered pairs of a corpus, and 300 repetitions of one call followed by the corpus) are replayed natively against fresh processes.',
                 ref='DESIGN.md section 6 C16'),
     'C03': dict(text='The five real parsers (all of parser.rs from MIR) executed over every stream of exactly K symbolic tokens, K = 0..3 (thorough 4), over the complete token vocabulary: the set of accepted token sequences equals the set the reference grammar accepts (both directions) and the trees agree; plus the tokenizers on every string of 0..2 characters, and mod.rs of each evaluator on every string of 0..3 (thorough 0..5) characters with tokenizer+parser and evaluator as nondeterministic stubs: Ok is returned only through Parser::new, parse and eval on the whitespace-free input (no bypass).',
                 ref='DESIGN.md section 6 C03'),
@@ -26,19 +26,19 @@ CLAIMED = {
                 ref='DESIGN.md section 6 C15'),
     'C20': dict(text='For the listed parent nodes, child positions and inner nodes of eval_f64, eval_i64, eval_number, eval_complex: three explorations of ast::eval from MIR related by substitution - eval(Outer(..Inner(x)..)) equals eval(Outer(..Number(v)..)) with v := value of Inner(x), Err when Inner is Err - decided by z3 for every feasible combination of paths; plus bracketed groups in operand / argument position at the parser level, and mod.rs of every evaluator (stages stubbed) returns exactly the evaluator\'s value.',
                 ref='DESIGN.md section 6 C20'),
-    'C14': dict(text='The public eval_* functions from the MIR of mod.rs on `@`, `(@)`, `+@`, `((@))` with a fully symbolic placeholder return exactly the placeholder; in the parser every `@` leaf of every accepted template stream is the placeholder term itself and `@` never joins an implicit product.',
+    'C14': dict(text='The public eval_* functions from the MIR of mod.rs on `@`, `(@)`, `+@`, `((@))` with a fully symbolic placeholder return exactly the placeholder; in the parser every `@` leaf of every accepted template stream is the placeholder term itself and `@` never joins an implicit product; premise: no state outlives a call (purity scan of every reachable MIR body, native call histories if state is found).',
                 ref='DESIGN.md section 6 C14'),
-    'C05': dict(text='Every arithmetic node of eval_f64 (one node and two nested nodes, leaves = arbitrary doubles) is shown by z3 to apply the IEEE/libm operation of the same meaning to its operands in order and never to return Err; bounded by tree shape, not by operand values.',
+    'C05': dict(text='Every arithmetic node of eval_f64 (one node and two nested nodes, leaves = arbitrary doubles) is shown by z3 to apply the IEEE/libm operation of the same meaning to its operands in order and never to return Err; bounded by tree shape, not by operand values; plus eval_f64 end to end (mod.rs, tokenizer, parser, evaluator) on 26 templates of one to three operators over an arbitrary placeholder.',
                 ref='DESIGN.md section 6 C05'),
-    'C06': dict(text='Every integer node of eval_i64 is executed symbolically on arbitrary i64 operands from the MIR built with and without overflow checks; z3 (Int theory) shows Ok(v) implies v is the exact result and overflow / zero divisor / bad shift count give Err, never a panic or a wrapped value. Exponent case split 0..64 (quick 0..12), n! for n <= 25.',
+    'C06': dict(text='Every integer node of eval_i64 is executed symbolically on arbitrary i64 operands from the MIR built with and without overflow checks; z3 (Int theory) shows Ok(v) implies v is the exact result and overflow / zero divisor / bad shift count give Err, never a panic or a wrapped value. Exponent case split 0..64, n! for n <= 25; plus eval_i64 end to end on one-operator templates with a symbolic digit and an arbitrary placeholder.',
                 ref='DESIGN.md section 6 C06'),
     'C07': dict(text='The arithmetic arms of eval_decimal executed from MIR over abstract Decimal operands: Ok(v) iff the checked rust_decimal operation of the same meaning succeeds, with v that operation applied to the operands in order, Err (never a panic) otherwise, also through a parent node; the decimal tokenizer hands literals of 1..28 digits to from_str with exactly their value and scale. The exactness of rust_decimal itself is the trusted contract of the dependency.',
                 ref='DESIGN.md section 6 C07'),
     'C08': dict(text='Every node of eval_complex from MIR on arbitrary pairs of doubles: + - and unary minus are the component formulas bit for bit, * the textbook product, / the quotient through the squared norm, each function the num_complex method of the same meaning on its operands in order (methods uninterpreted); the tokenizer reads `i` and DIGITS i as (0, v) and keeps `pi`; eval_complex("i*i") is exactly (-1, 0). Numeric accuracy of the transcendental methods is outside.',
                 ref='DESIGN.md section 6 C08'),
-    'C09': dict(text='Every eval_number node on every Integer/Float operand-variant combination with arbitrary payloads: z3 (bit-vectors + FP, Int for exact powers) decides exact Integer results, the float fallback and correct rounding. Assumes the contract of Number::from, which C18 establishes.',
+    'C09': dict(text='Every eval_number node on every Integer/Float operand-variant combination with arbitrary payloads: z3 (bit-vectors + FP, Int for exact powers) decides exact Integer results, the float fallback and correct rounding. The contract of Number::from that these obligations assume is decided in the same run (premise obligation, all doubles), and digit-only literals of 1, 16..19 digits are shown to be read as exactly that Integer.',
                 ref='DESIGN.md section 6 C09'),
-    'C10': dict(text='(T) the five real tokenizers executed from MIR on every README name, alias and word constant followed by arbitrary characters: the function token is produced exactly when the name is this evaluator\'s and is directly followed by `(`, the longest name wins, foreign names give no token; (E) every function node of eval_f64 / eval_number (and the exact ones of eval_i64) applies the library function of that name to its arguments in order (libm uninterpreted; rounding, abs, sqrt, sgn, n! exact).',
+    'C10': dict(text='(T) the five real tokenizers executed from MIR on every README name, alias and word constant followed by arbitrary characters: the function token is produced exactly when the name is this evaluator\'s and is directly followed by `(`, the longest name wins, foreign names give no token; (E) every function node of eval_f64 / eval_number (and the exact ones of eval_i64) applies the library function of that name to its arguments in order (libm uninterpreted; rounding, abs, sqrt, sgn, n! exact), every function node of eval_decimal the rust_decimal operation of that name and every function node of eval_complex the num_complex method (both abstract); premise: Number::from decided for all doubles.',
                 ref='DESIGN.md section 6 C10'),
     'C19': dict(text='Tokenizer::next of all five tokenizers on literal templates with n symbolic digits (n up to 40, thorough 100), every point position and an arbitrary following character: the Num token carries exactly the rational value of the literal (Integer/Float kind in eval_number, exact scale in eval_decimal), exactly the literal is consumed, and no conversion can panic.',
                 ref='DESIGN.md section 6 C19'),
@@ -46,7 +46,7 @@ CLAIMED = {
                 ref='DESIGN.md section 6 C11'),
     'C17': dict(text='For the feature subsets (quick: singles, pairs with eval_i64, full set; thorough: all 31) the MIR dump succeeds (a failing subset is re-built with cargo and reported), exactly the selected eval_* functions are compiled and link, every MIR body of the subset equals a default-build body of the same trimmed name (name-independent fingerprint; cfg-dependent bodies must be covered semantically), Number::from(f64) is decided from each subset\'s MIR for all doubles, and the parser executed from that subset\'s MIR (with its cfg-dependent OperatorCategory order) groups X op Y op Z for every operator pair as the reference grammar.',
                 ref='DESIGN.md section 6 C17'),
-    'C18': dict(text='Both From impls of Number executed from MIR on one fully symbolic argument: z3 decides the property for all 2^64 doubles and all i64 (no bound on the argument).',
+    'C18': dict(text='Both From impls of Number executed from MIR on one fully symbolic argument: z3 decides the property for all 2^64 doubles and all i64 (no bound on the argument); the other conversion into Number, digit-only literal text of 1, 16..19 digits, is read as exactly that Integer.',
                 ref='DESIGN.md section 6 C18'),
 }
 
